@@ -113,7 +113,7 @@ def main():
         "setup_cmd": "bin/setup",
         "hooks": {"guard": "verif",
                   "enable": "go build -tags verif (the harness module in /verif/harness replaces github.com/attestantio/dirk with /repo)",
-                  "baseline_off_cmd": base["cmd"], "source_commits": ["e8474e7", "25a2252", "62a60cd"], "add_only": True},
+                  "baseline_off_cmd": base["cmd"], "source_commits": ["e8474e7", "25a2252", "62a60cd", "38c4d69"], "add_only": True},
         "engines": [
             {"name": "coq-model", "path": "coq", "serves_properties": sorted(CLAIMS),
              "kind_free_text": "hand-written Gallina model + theorems (Coq 8.16.1), checked by make/coqc"},
